@@ -338,6 +338,36 @@ def gen_rel(rng, shape):
     return {"op": op, "sides": sides}
 
 
+def confusable(rng):
+    """Two relations whose renderings differ only by a blank, with different meanings:  2e1 is the number
+    20,  2 e1 is twice the variable e1.  Returned as [(rel, string)], to be parsed one after the other."""
+    k = rng.choice([1, 2, 3])
+    e = rng.choice([1, 2])
+    other = rng.choice(["x", "y"])
+    c = rng.choice([30, 50, 40])
+    num = {"op": "<=", "sides": [[{"t": "var", "k": 4, "n": other}, {"t": "num", "k": 4 * k * 10 ** e}], [{"t": "num", "k": 4 * c}]]}
+    var = {"op": "<=", "sides": [[{"t": "var", "k": 4, "n": other}, {"t": "var", "k": 4 * k, "n": "e%d" % e}], [{"t": "num", "k": 4 * c}]]}
+    s_num = "%s + %de%d <= %d" % (other, k, e, c)
+    s_var = "%s + %d e%d <= %d" % (other, k, e, c)
+    pair = [(num, s_num), (var, s_var)]
+    if rng.random() < 0.5:
+        pair.reverse()
+    return pair
+
+
+def blank_inside(s):
+    """a blank inside a relational operator or inside a number makes the string malformed"""
+    import re
+
+    m = re.search(r"\d\d", s)
+    if m:
+        return s[: m.start() + 1] + " " + s[m.start() + 1:]
+    for op in ("<=", ">=", "=="):
+        if op in s:
+            return s.replace(op, op[0] + " " + op[1], 1)
+    return s + " 1 2"
+
+
 MALFORM = [
     lambda s: s.replace("<=", "<= <=", 1) if "<=" in s else s + " <= <= 1",
     lambda s: s + " +",
@@ -345,4 +375,5 @@ MALFORM = [
     lambda s: s.replace("|", "", 1) if s.count("|") >= 2 else s + " |",
     lambda s: "<= " + s.split("<=")[-1] if "<=" in s else "= " + s,
     lambda s: s.replace("<=", "<", 1).replace(">=", ">", 1).replace("==", "=!", 1) if ("<=" in s or ">=" in s or "==" in s) else s + " $",
+    blank_inside,
 ]
